@@ -1140,6 +1140,67 @@ def check_negative(item, ctx):
                   lambda: f"{cat} name {bad!r} (from {valid!r}) form {form}: returned {type(res).__name__} instead of raising")
 
 
+# ----------------------------------------------------------------------------- facet: recombined (invalid names made of valid items)
+def _recombined_vocab(cat):
+    names = R.expected_state_names() if cat == "state" else R.expected_povm_names()
+    toks = list(names["1q"]) + [n for n in names["qutrit"] if "_" not in n] + (["bell"] if cat == "povm" else [])
+    valid = set()
+    for v in names.values():
+        valid.update(v)
+    return toks, valid
+
+
+def known_povm_name_not_validated(case):
+    """C17-F4: POVM names that are '_'-joined valid single POVM items are generated without a catalogue look-up."""
+    if case.get("catalogue") != "povm" or "name" not in case:
+        return False
+    toks, valid = _recombined_vocab("povm")
+    return case["name"] not in valid and all(t in toks for t in case["name"].split("_"))
+
+
+def recombined_items(tier):
+    """'_'-joined sequences of single-system item names (qubit and qutrit items pooled): all pairs, triples and
+    quadruples (hash-strided in the quick tier); sequences that are catalogue names are skipped and counted."""
+    items = []
+    for cat in ("state", "povm"):
+        toks, _ = _recombined_vocab(cat)
+        for k, stride in ((2, 1), (3, 1 if tier == "thorough" else 5), (4, 29 if tier == "thorough" else 499)):
+            for j, t in enumerate(itertools.product(toks, repeat=k)):
+                if j % stride == 0:
+                    items.append({"catalogue": cat, "name": "_".join(t), "k": k})
+    return items
+
+
+def check_recombined(item, ctx):
+    cat, name = item["catalogue"], item["name"]
+    toks, valid = _recombined_vocab(cat)
+    ctx.label(cat, f"items:{item['k']}")
+    if name in valid:
+        ctx.label("recombination_is_valid")
+        return
+    kinds = {("qutrit" if t[:2] in ("01", "12", "02") or t in ("z3", "z2") else "qubit") for t in name.split("_") if t != "bell"}
+    ctx.label("kinds:" + ("mixed" if len(kinds) == 2 else (kinds.pop() if kinds else "bell")))
+    ctx.nontrivial(True)
+    if cat == "state":
+        from quara.objects import state_typical as stt
+
+        ctx.check(stt.is_valid_state_name(name) is False, "recombined:is_valid_state_name_false", repr(name))
+        ctx.check(name not in stt.get_state_names(), "recombined:not_listed", repr(name))
+        forms = ["pure_state_vector", "density_mat"]
+        call = lambda f: stt.generate_state_object_from_state_name_object_name(name, f)
+    else:
+        from quara.objects import povm_typical as pt
+
+        ctx.check(name not in pt.get_povm_names(), "recombined:not_listed", repr(name))
+        forms = ["pure_state_vectors", "matrices"]
+        call = lambda f: pt.generate_povm_object_from_povm_name_object_name(name, f)
+    for form in forms:
+        res, err = try_call(lambda: call(form))
+        ctx.label("raises:" + (type(err).__name__ if err is not None else "nothing"))
+        ctx.check(err is not None, "recombined:unknown_name_raises",
+                  lambda: f"{cat} name {name!r} form {form}: returned {type(res).__name__} instead of raising")
+
+
 FACETS = {
     "states": {
         "kind": "enumeration", "items": state_items, "check": check_state,
@@ -1220,6 +1281,12 @@ FACETS = {
         "budget": {"quick": {"examples": 0, "shards": 1}, "thorough": {"examples": 0, "shards": 1}},
         "nontrivial": "every (mode, name, listed object_name) triple sent through qoperation_typical.generate_qoperation_object",
         "min_nontrivial": 25,
+    },
+    "recombined": {
+        "kind": "enumeration", "items": recombined_items, "check": check_recombined,
+        "budget": {"quick": {"examples": 0, "shards": 4}, "thorough": {"examples": 0, "shards": 8}},
+        "nontrivial": "the '_'-joined sequence of valid single-system items is not a catalogue name (qubit/qutrit mixtures, three or four qutrit items, four qubit items)",
+        "min_nontrivial": 1000,
     },
     "negative": {
         "kind": "enumeration", "items": negative_items, "check": check_negative,
